@@ -248,8 +248,8 @@ def run_c19(ctx, pid):
         if k not in seen:
             seen.add(k)
             cbeh.append(b)
-    if quick and len(cbeh) > 900:
-        cbeh = cbeh[:len(cexh)] + vlib.sample(ctx.rng, cbeh[len(cexh):], 900 - len(cexh))
+    if quick and len(cbeh) > 480:
+        cbeh = cbeh[:len(cexh)] + vlib.sample(ctx.rng, cbeh[len(cexh):], 480 - len(cexh))
     # operation sequences: distinct sequences of length D; quick samples them (seeded), favouring sequences that schedule something
     seen, sbeh = set(), []
     for b in sall:
@@ -260,7 +260,7 @@ def run_c19(ctx, pid):
     nseq = len(sbeh)
     rich = [b for b in sbeh if any(o["op"] in ("Once", "Every") for o in b) and sum(o["ref"] == "g" for o in b) == 0]
     rest = [b for b in sbeh if b not in rich] if len(sbeh) < 5000 else [b for b in sbeh if not (any(o["op"] in ("Once", "Every") for o in b) and sum(o["ref"] == "g" for o in b) == 0)]
-    sbeh = vlib.sample(ctx.rng, rich, 1000 if quick else 6000) + vlib.sample(ctx.rng, rest, 200 if quick else 1000)
+    sbeh = vlib.sample(ctx.rng, rich, 600 if quick else 6000) + vlib.sample(ctx.rng, rest, 100 if quick else 1000)
     cfile, sfile = ctx.tmp("claim-behaviours.ndjson"), ctx.tmp("sched-behaviours.ndjson")
     lsbox = {}
     if not quick or os.environ.get("VERIF_LONGSTALL") == "1":
